@@ -166,18 +166,30 @@ def run_e2e_literal(ctx, sigs, pairs) -> None:
 
 
 def run_override(ctx, sigs, pairs) -> None:
-    """class Base: def m(self, <E>) ; class D(Base): def m(self, <G>) — accepted iff no incompatible_override."""
+    """Two shapes per pair (expected E, actual G):
+      direct:  class B: def m(self, <E>)        class D(B): def m(self, <G>)
+      far:     class N: def m(self, <G>)        class F: def m(self, <E>)        class D(N, F): def m(self, <G>)
+    (in the second one the NEAREST ancestor defining m is trivially compatible, the incompatible one is farther away).
+    D.m is accepted iff no incompatible_override is reported on it; then every call shape E binds must bind to D().m."""
     if not pairs:
         return
     lines = []
     line_of = {}
     for n, (i, j) in enumerate(pairs):
         pe, pg = sigs[i].render_params(), sigs[j].render_params()
+        se, sg = (", " + pe if pe else ""), (", " + pg if pg else "")
         lines.append(f"class B{n}:")
-        lines.append(f"    def m(self{', ' + pe if pe else ''}): pass")
+        lines.append(f"    def m(self{se}): pass")
         lines.append(f"class D{n}(B{n}):")
-        lines.append(f"    def m(self{', ' + pg if pg else ''}): pass")
-        line_of[n] = len(lines)
+        lines.append(f"    def m(self{sg}): pass")
+        line_of[(n, "direct")] = len(lines)
+        lines.append(f"class N{n}:")
+        lines.append(f"    def m(self{sg}): pass")
+        lines.append(f"class F{n}:")
+        lines.append(f"    def m(self{se}): pass")
+        lines.append(f"class X{n}(N{n}, F{n}):")
+        lines.append(f"    def m(self{sg}): pass")
+        line_of[(n, "far")] = len(lines)
     source = "\n".join(lines) + "\n"
     res = harness.run(source, keep_module=True, overrides={"incompatible_override": True})
     try:
@@ -187,14 +199,16 @@ def run_override(ctx, sigs, pairs) -> None:
         by_line = res.by_line()
         ns = res.module.__dict__
         for n, (i, j) in enumerate(pairs):
-            ds = [d for d in by_line.get(line_of[n], []) if d.code == "incompatible_override"]
-            ctx.count("evaluations")
-            ctx.count("override_pairs")
-            if ds:
-                continue
-            ctx.count("override_accepted")
-            base, derived = ns[f"B{n}"](), ns[f"D{n}"]()
-            judge_pair(ctx, sigs[i], sigs[j], base.m, derived.m, "override")
+            for shape, base_name, derived_name in (("direct", f"B{n}", f"D{n}"), ("far", f"F{n}", f"X{n}")):
+                ds = [d for d in by_line.get(line_of[(n, shape)], []) if d.code == "incompatible_override"]
+                ctx.count("evaluations")
+                ctx.count("override_pairs")
+                if ds:
+                    continue
+                ctx.count("override_accepted")
+                base, derived = ns[base_name](), ns[derived_name]()
+                route = "override" if shape == "direct" else "override-far-ancestor"
+                judge_pair(ctx, sigs[i], sigs[j], base.m, derived.m, route)
     finally:
         harness.forget_module(res.module)
 
@@ -300,8 +314,9 @@ def replay(witness):
         run_api_pairs(ctx, sigs, [(0, 1)])
     elif route == "literal-param":
         run_e2e_literal(ctx, sigs, [(0, 1)])
-    elif route == "override":
+    elif route in ("override", "override-far-ancestor"):
         run_override(ctx, sigs, [(0, 1)])
     for key, lst in ctx.violations.items():
-        return key, lst[0]["what"]
+        if key.startswith(route + "|"):
+            return key, lst[0]["what"]
     return None
